@@ -12,3 +12,24 @@ Proof.
   destruct (front a) as [e|b]; [discriminate|].
   destruct (generate_tables (b_gi b)) as [[l|]|t]; discriminate.
 Qed.
+
+(* the executable form used by the extracted oracle: the same function with the row displacement computed once *)
+From YG Require Import Fast.
+Definition generate_text_fast (s : list ascii) : gen_result :=
+  match parse_text s with
+  | PAst a =>
+    match front a with
+    | inl e => GFront e
+    | inr b =>
+      match generate_tables_fast (b_gi b) with
+      | inr t => GOk b t
+      | inl (EUnproductive l) => GFront (FUnproductive l)
+      | inl ETooManyStates => GTooMany
+      end
+    end
+  | r => GSyntax r
+  end.
+Theorem generate_text_fast_eq s : generate_text_fast s = generate_text s.
+Proof.
+  unfold generate_text_fast, generate_text. destruct (parse_text s) as [a| | | |]; reflexivity.
+Qed.
